@@ -183,7 +183,7 @@ def task(prop, seed, size, cfgbins, sizes=(1, 2, 3, 8)):
 def run(prop, tier, seed, t0):
     from .. import plan
     q = tier == 'quick'
-    cfgs = ['simd', 'serial32', 'avx512'] if q else plan.ALL_CFGS
+    cfgs = plan.ALL_CFGS
     bins, notes, failed = plan.bins_for(cfgs, ('rel',))
     if failed:
         return plan.fail_build(prop, failed)
